@@ -27,7 +27,7 @@ theorem isSquare_encW_even (R : Ed) : IsSquare (encW (2 • R).x (2 • R).y) :=
   have hd2 : 1 - d * R.x ^ 2 * R.y ^ 2 ≠ 0 := by
     intro h'; apply hden; linear_combination h'
   have hy' : (2 • R).y * (1 - d * R.x ^ 2 * R.y ^ 2) = R.y ^ 2 + R.x ^ 2 := by
-    rw [hy]; field_simp
+    rw [hy, div_mul_cancel₀ _ hd2]
   generalize (2 • R).x = x at *
   generalize (2 • R).y = y at *
   generalize R.x = a at *
@@ -114,5 +114,88 @@ theorem batS_sq {e f g h x3 y3 inv : Fp} (hf : f ≠ 0) (hh : h ≠ 0) (hx3 : x3
       · linear_combination hy3
       · linear_combination (-1 : Fp) * hy3
       · linear_combination ((h - g) * g ^ 2 * Ti ^ 2) * k2 + (h - g) * k3
+
+theorem eq_of_sq_char {s s' σ : Fp} (h1 : s ^ 2 * (1 + σ) = 1 - σ) (h2 : s' ^ 2 * (1 + σ) = 1 - σ)
+    (hσ : 1 + σ ≠ 0) (hs : ¬ fpIsNeg s) (hs' : ¬ fpIsNeg s') : s' = s := by
+  have hsq : s' ^ 2 = s ^ 2 := by
+    apply mul_right_cancel₀ hσ; rw [h1, h2]
+  have := fpAbs_eq_of_sq_eq hsq hs
+  rwa [fpAbs_of_not_neg hs'] at this
+
+theorem batS_inv_zero (e f g h eg fh : Fp) : batS e f g h eg fh 0 = 0 := by
+  unfold batS
+  rw [mul_zero, mul_zero, mul_zero, mul_zero]
+  exact fpAbs_zero
+
+/-- **Batched double-and-compress** in the field: for a valid extended point `(X:Y:Z:T)` of `R`, the closure of
+`double_and_compress_batch` applied to `BatchCompressState::from` of it and to the inverse of `eg·fh` (`0` if that
+product is `0`, as `batch_invert` returns) computes the `s` that `compress` computes for ANY representation of `2R`. -/
+theorem batS_eq_encS_double {R : Ed} {X Y Z T X' Y' Z' T' : Fp} (hR : RepExt R X Y Z T)
+    (hR2 : RepExt (2 • R) X' Y' Z' T') :
+    batS (X * (Y + Y)) (Z ^ 2 + T ^ 2 * d) (Y ^ 2 + X ^ 2) (Z ^ 2 - T ^ 2 * d)
+        (X * (Y + Y) * (Y ^ 2 + X ^ 2)) ((Z ^ 2 + T ^ 2 * d) * (Z ^ 2 - T ^ 2 * d))
+        ((X * (Y + Y) * (Y ^ 2 + X ^ 2) * ((Z ^ 2 + T ^ 2 * d) * (Z ^ 2 - T ^ 2 * d)))⁻¹) =
+      encS X' Y' Z' T' := by
+  obtain ⟨hX, hY, hT⟩ := repExt_coords hR
+  obtain ⟨hX', hY', hT'⟩ := repExt_coords hR2
+  have hZ := hR.1
+  have hZ' := hR2.1
+  have hden := EdPoint.add_den_ne_zero R R
+  have hx3 := EdPoint.two_nsmul_x R
+  have hy3 := EdPoint.two_nsmul_y R
+  have hc : -R.x ^ 2 + R.y ^ 2 = 1 + d * R.x ^ 2 * R.y ^ 2 := R.on
+  have hc3 : onCurve d (2 • R).x (2 • R).y := (2 • R).on
+  rw [edParams_d] at hden hx3 hy3
+  have hd1 : 1 + d * R.x ^ 2 * R.y ^ 2 ≠ 0 := by
+    intro h'; apply hden.1; linear_combination h'
+  have hd2 : 1 - d * R.x ^ 2 * R.y ^ 2 ≠ 0 := by
+    intro h'; apply hden.2; linear_combination h'
+  have hx3' : (2 • R).x * (1 + d * R.x ^ 2 * R.y ^ 2) = 2 * R.x * R.y := by
+    rw [hx3, div_mul_cancel₀ _ hd1]
+  have hy3' : (2 • R).y * (1 - d * R.x ^ 2 * R.y ^ 2) = R.y ^ 2 + R.x ^ 2 := by
+    rw [hy3, div_mul_cancel₀ _ hd2]
+  have hsqW := isSquare_encW_even R
+  generalize (2 • R).x = x3 at *
+  generalize (2 • R).y = y3 at *
+  generalize R.x = a at *
+  generalize R.y = b at *
+  subst hX hY hT hX' hY' hT'
+  have hf : Z ^ 2 + (a * b * Z) ^ 2 * d ≠ 0 := by
+    have : Z ^ 2 + (a * b * Z) ^ 2 * d = Z ^ 2 * (1 + d * a ^ 2 * b ^ 2) := by ring
+    rw [this]; exact mul_ne_zero (pow_ne_zero _ hZ) hd1
+  have hh : Z ^ 2 - (a * b * Z) ^ 2 * d ≠ 0 := by
+    have : Z ^ 2 - (a * b * Z) ^ 2 * d = Z ^ 2 * (1 - d * a ^ 2 * b ^ 2) := by ring
+    rw [this]; exact mul_ne_zero (pow_ne_zero _ hZ) hd2
+  have ex : x3 * (Z ^ 2 + (a * b * Z) ^ 2 * d) = a * Z * (b * Z + b * Z) := by
+    linear_combination (Z ^ 2) * hx3'
+  have ey : y3 * (Z ^ 2 - (a * b * Z) ^ 2 * d) = (b * Z) ^ 2 + (a * Z) ^ 2 := by
+    linear_combination (Z ^ 2) * hy3'
+  have r1 : ((b * Z) ^ 2 + (a * Z) ^ 2) ^ 2 = (Z ^ 2 + (a * b * Z) ^ 2 * d) ^ 2 + (a * Z * (b * Z + b * Z)) ^ 2 := by
+    linear_combination (Z ^ 4 * (b ^ 2 - a ^ 2 + 1 + d * a ^ 2 * b ^ 2)) * hc
+  have r2 : (Z ^ 2 + (a * b * Z) ^ 2 * d) ^ 2 =
+      (Z ^ 2 - (a * b * Z) ^ 2 * d) ^ 2 + d * (a * Z * (b * Z + b * Z)) ^ 2 := by ring
+  generalize he : a * Z * (b * Z + b * Z) = e at *
+  generalize hfdef : Z ^ 2 + (a * b * Z) ^ 2 * d = f at *
+  generalize hg : (b * Z) ^ 2 + (a * Z) ^ 2 = g at *
+  generalize hhdef : Z ^ 2 - (a * b * Z) ^ 2 * d = h at *
+  by_cases heg : e * g = 0
+  · rw [heg, zero_mul, inv_zero, batS_inv_zero]
+    have hxy : x3 * y3 = 0 := by
+      have : x3 * y3 * (f * h) = 0 := by linear_combination heg + (y3 * h) * ex + e * ey
+      rcases mul_eq_zero.1 this with h' | h'
+      · exact h'
+      · exact absurd h' (mul_ne_zero hf hh)
+    rw [encS_of_mul_eq_zero Z' _ (by linear_combination (Z' ^ 2) * hxy)]
+  · have hne : e * g * (f * h) ≠ 0 := mul_ne_zero heg (mul_ne_zero hf hh)
+    have hinv : (e * g * (f * h))⁻¹ * (e * g * (f * h)) = 1 := inv_mul_cancel₀ hne
+    have hxy : x3 * y3 ≠ 0 := by
+      intro h'
+      apply heg
+      have : e * g = x3 * y3 * (f * h) := by linear_combination -(y3 * h) * ex - e * ey
+      rw [this, h', zero_mul]
+    have e1 := batS_sq hf hh ex ey r1 r2 hinv
+    have e2 := encS_sq hZ' hc3 ((encW_ne_zero_iff hc3).2 hxy) hsqW
+    exact (eq_of_sq_char e1 e2 (one_add_selY_ne_zero hc3 hxy) (not_fpIsNeg_fpAbs _)
+      (not_fpIsNeg_encS _ _ _ _)).symm
 
 end Dalek.Proofs.Ris
